@@ -71,9 +71,21 @@ def run(chk):
                     lines.append("cmddec %d %s" % (idx, W.hexs(data)))
                     cases.append((idx, cls, kw, body, len(body) + extra, status, data))
     outs = model.batch(lines)
-    tie_bad = mon_bad = None
-    for (idx, cls, kw, body, c, status, data), o in zip(cases, outs):
+    # the same data decoded with the PINNED schema of the class (the protocol's parameter list, optional flags included)
+    pouts = model.batch(["pcmddec %s %s" % (cls.__qualname__, W.hexs(data)) for (_, cls, _, _, _, _, data) in cases])
+    tie_bad = mon_bad = pin_bad = None
+    for (idx, cls, kw, body, c, status, data), o, po in zip(cases, outs, pouts):
         got = W.impl_from_body(cls, data)
+        if got != po and po != "NOCLASS":
+            if pin_bad is None:
+                pin_bad = (cls.__qualname__, W.hexs(data), got, po)
+            if len(chk.violations) < 5:
+                what = ("a status-zero response cut short is delivered" if status == 0 and c < len(body) and po == "R" else
+                        "the result differs from the protocol's parameter list")
+                chk.violation("%s: %s: %s bytes %s (of the %d-byte response %s, status %d) give %s; by the protocol's schema: %s"
+                              % (cls.__qualname__, what, len(data), W.hexs(data), len(body), W.hexs(body), status, got, po),
+                              {"class": cls.__qualname__, "data": W.hexs(data), "result": got, "protocol": po},
+                              key="%s:protocol-oracle" % cls.__qualname__)
         chk.note_case((cls.__qualname__, data), nontrivial=0 < c < len(body))
         chk.count("status_zero" if status == 0 else "status_nonzero")
         chk.count("result_" + got[:1])
@@ -87,6 +99,7 @@ def run(chk):
         if got != o and tie_bad is None:
             tie_bad = (cls.__qualname__, W.hexs(data), got, o)
     chk.oblige("tieB:from_frame-vs-from_body(%d cases)" % len(cases), tie_bad is None, repr(tie_bad)[:300] if tie_bad else "")
+    chk.oblige("monitor:protocol-oracle(pinned schemas)-on-truncated/extended-responses", pin_bad is None, repr(pin_bad)[:300] if pin_bad else "")
     chk.oblige("monitor:truncation/surplus-rules-on-impl", mon_bad is None, repr(mon_bad)[:300] if mon_bad else "")
     if tie_bad and not mon_bad:
         from common import BuildBroken
